@@ -11,7 +11,9 @@ use crate::{corpus, gen, p_import, p_indent, p_off, p_perf, p_pure, p_range, p_t
 pub fn violated(v: &Violation, new_input: &str) -> Option<bool> {
     match v.property.as_str() {
         "C05" => {
-            if v.oracle == "depth-ladder" {
+            if v.extra["checked_profile"].as_bool() == Some(true) {
+                p_total::checked_one(new_input, v.cfg?)
+            } else if v.oracle == "depth-ladder" {
                 p_total::ladder_violated(&v.extra, v.cfg?)
             } else if v.oracle == "no-abort" {
                 p_total::dies_in_isolation(new_input, v.cfg?).map(|d| d.0)
@@ -84,6 +86,7 @@ pub fn run(prop: &str, tier: Tier) -> (RunMeta, Acc) {
                 Part::new(std.base_list(), usize::MAX, usize::MAX, CfgRule::Fixed(cfgs.clone())),
                 Part::new(p_off::off_pool(sb.clone()), 12_000, usize::MAX, CfgRule::Fixed(cfgs.clone())),
                 Part::new(p_off::off3_pool(sb.clone()), 5_000, usize::MAX, CfgRule::Fixed(cfgs.clone())),
+                Part::new(p_off::off4_pool(std.snippet_bases.clone()), 5_000, usize::MAX, CfgRule::Fixed(cfgs.clone())),
             ];
             let (mut acc, pm) = workload::run_parts(&parts, tier, seed, |part, case, _, acc| {
                 if let CfgRule::Fixed(c) = &part.cfg {
@@ -223,6 +226,8 @@ pub fn run(prop: &str, tier: Tier) -> (RunMeta, Acc) {
             }
             let max_depth = if tier == Tier::Quick { 2048 } else { 8192 };
             p_total::run_ladders(&fams, max_depth, &mut acc);
+            // the same observations with integer-overflow checks and debug assertions on
+            p_total::run_checked_slice(seed, tier != Tier::Quick, &mut acc);
             meta.assumptions = vec![
                 "CPU budget 10 s per call (two orders of magnitude above the slowest call of the pre-sweep); a wall-clock watchdog only yields inconclusive".into(),
                 "release profile (what users run)".into(),
@@ -249,6 +254,7 @@ pub fn run(prop: &str, tier: Tier) -> (RunMeta, Acc) {
             gens(&mut parts, 1500, gen::GEN_N);
             parts.push(Part::new(pools::splice_pool(std.small_bases.clone(), std.frags.clone()), 3000, 72_678, fixed()));
             parts.push(Part::new(pools::paren_pool(std.small_bases.clone()), 2000, 33_196, fixed()));
+            parts.push(Part::new(pools::pattern_paren_pool(std.small_bases.clone()), 1000, usize::MAX, fixed()));
             parts.push(Part::new(pools::comment_pool(std.small_bases.clone()), 1500, 120_000, fixed()));
             parts.push(Part::new(pools::ws_pool(std.small_bases.clone()), 1000, 80_000, fixed()));
             let (mut acc, pm) = workload::run_parts(&parts, tier, seed, |_, case, _, acc| p_perf::run_case(case, &cfgs, acc));
@@ -309,6 +315,7 @@ pub fn run(prop: &str, tier: Tier) -> (RunMeta, Acc) {
             let items = p_pure::build_items(&cases, n, &mut rng);
             let mut acc = Acc::new();
             p_pure::run(&items, &threads, rounds, seed, envn, &mut acc);
+            p_pure::delivery_history(&mut acc, tier != Tier::Quick);
             meta.assumptions = vec![
                 "a call has no internal synchronisation points, so interleavings are obtained by thread scheduling (barrier start, seeded yields between calls); data races are decided by the ThreadSanitizer / Miri tier of the thorough command".into(),
             ];
